@@ -27,21 +27,28 @@ BOUNDS = "BMC from reset: quick K=34 (1 header, everything free) ; thorough K=44
 OUTSIDE = "down/reset while a header is being received; traces longer than the bound; LAU/LPMA responses"
 
 
+C38_ASSERTS = ["adv_first", "adv_missing", "stale_offer", "offer_valid", "lgood_number", "lcrd_order", "lcrd_free",
+               "lbad_cause", "lc_format"]
+
+
 def queries(tier):
     quick = tier == "quick"
     f1 = lambda: HeaderRxHarness(n_packets=1, lead=9, spacing=2, free_enable=True)
     f2 = lambda: HeaderRxHarness(n_packets=2, lead=9, spacing=2, free_enable=True)
     K1 = 34 if quick else 40
     calm = {"retry_required": 0, "keepalive": 0, "lxu": 0}
-    hint = {"*": dict(calm)}
-    qs = [Query("bmc_1hp_free", f1, K1, timeout=900, split=False, hints=hint,
+    hint = {"*": dict(calm, src_ready=1)}
+    qs = [Query("bmc_1hp_free", f1, K1, timeout=900, split=False, hints=hint, asserts=C38_ASSERTS,
                 covers=["readv_after_disable", "readv_after_reset", "disable_mid_lgood", "disable_mid_lcrd"],
                 desc="1 symbolic header; enable/usb_reset and every handshake/strobe free in every cycle"),
-          Query("bmc_1hp_bad", f1, K1 + 6, timeout=900, split=False, layer={"lxu": 0}, hints={"*": {"src_ready": 1}},
+          Query("bmc_1hp_deep", f1, K1 + 6, timeout=900, split=False, layer={"lxu": 0, "src_ready": 1},
+                hints={"*": {}}, asserts=C38_ASSERTS,
                 covers=["disable_mid_lbad", "disable_mid_lrty", "disable_mid_keepalive"],
-                desc="layer: no LXU requests; deeper, reaches link-down in the middle of LBAD / LRTY / keepalive")]
+                desc="layer: PHY always ready, no LXU requests; deeper, reaches link-down in the middle of LBAD / LRTY / keepalive"),
+          Query("bmc_1hp_calm_all", f1, K1, timeout=900, split=False, layer=dict(calm, src_ready=1), covers=[],
+                desc="layer: PHY always ready, no LRTY/keepalive/LXU; all assertions incl. delivery order after re-entry")]
     if not quick:
-        qs.append(Query("bmc_2hp_calm", f2, 46, timeout=1200, split=False, layer=calm, covers=[],
+        qs.append(Query("bmc_2hp_calm", f2, 46, timeout=1200, split=False, layer=calm, covers=[], asserts=C38_ASSERTS,
                         desc="layer: no LRTY/keepalive/LXU requests; 2 headers, enable/usb_reset free"))
     qs.append(Query("cosim", f2, 0, kind="cosim", cosim_cycles=150 if quick else 600))
     return qs
